@@ -5,7 +5,7 @@
 //! duplication / swap / move / replacement, char mutation, non-ASCII insertion, span deletion, grammar
 //! garbage, and deep nesting within reason (≤ 200 levels of parentheses / blocks / brackets / ifs / lambdas /
 //! matches / unary operators / type arguments / tuple patterns, 500-term operator chains, very long tokens).
-//! Per text, in a child process (a host stack overflow aborts the process; a hang is killed after 60 s):
+//! Per text, in a child process (a host stack overflow aborts the process; a text that does not answer within 60 s is re-run alone and is a hang only after 300 s of its own CPU time):
 //! `abra_core::check`, `compile_bytecode`, `check_lsp` + `errors()` must each return (catch_unwind) — a panic,
 //! an abort or a hang is a failing input (`spec_fail`, one per distinct panic site, shrunk to the shortest
 //! failing prefix); `check` and `compile_bytecode` must agree on accept/reject and a rejection must carry
@@ -294,7 +294,7 @@ fn main() {
                     let show: String = if small.len() > 400 { format!("{}… ({} bytes)", small.chars().take(400).collect::<String>(), small.len()) } else { small };
                     ctx.spec_fail(format!(
                         "check / compile_bytecode / check_lsp takes the host process down ({why}: {}) on {label}: {:?}",
-                        if why == "abort" { "stack overflow or abort, 64 MB stack" } else { "no answer within 60 s" },
+                        if why == "abort" { "stack overflow or abort, 64 MB stack" } else { "no answer after 300 s of CPU time when run alone" },
                         show
                     ));
                 }
